@@ -142,6 +142,8 @@ TetLine(ln, pp, qp) ==
       msg  == IF ~WellFormed(post) THEN "C15:WellFormed"
               ELSE IF ~TetShape(post) THEN "C15:TetShape"
               ELSE IF inC /\ ~colOK THEN "C15:CollapseRel"
+              ELSE IF mod /\ c.op \in {"tet_add_cell_4", "tet_add_cell_v"} /\ AddTetInContract(pre, c.l)
+                      /\ ~AddTetRel(pre, c.l, post, ln.ret) THEN "C15:AddTetRel"
               ELSE qmsg
       drift == \/ mod /\ Strip(m) # Strip(post)
                \/ mod /\ ~IsDelete(c) /\ ln.ret # -2 /\ m.ret # ln.ret      \* (delete_* log the returned iterator, the kernel trace spec owns that)
@@ -320,11 +322,35 @@ C05Line(ln) ==
            ELSE IF ln.mesh = "tet" THEN C05TetState(s, ln.proto) ELSE C05HexState(s, ln.proto)
   IN [msg |-> r.msg, drift |-> 0, d |-> [Zero EXCEPT !.protocols = r.n]]
 
+(* =============================== C11 (tet / hex construction) =========== *)
+(* handle-based additions on tetrahedral and hexahedral meshes: accepted iff *)
+(* the valences fit and (with topology check) the list is closed; accepted   *)
+(* => exactly one entity with the given definition (a hexahedral cell may be *)
+(* re-ordered); rejected / reused => nothing observable changed.             *)
+C11Line(ln, pp, qp) ==
+  LET c    == ln.c
+      pre  == Obs(pp)
+      post == Obs(qp)
+      tet  == ln.mesh = "tet"
+      inF  == c.l # <<>> /\ WellFormed(pre) /\ \A i \in DOMAIN c.l : c.l[i] \in LiveHE(pre)
+      inC  == c.l # <<>> /\ WellFormed(pre) /\ \A i \in DOMAIN c.l : c.l[i] \in LiveHF(pre)
+      msg  == IF c.op = "add_face" /\ inF /\ ~ValAddFaceC11(pre, IF tet THEN 3 ELSE 4, c, post, ln.ret) THEN "C11:add_face"
+              ELSE IF c.op = "add_halfface" /\ tet /\ inF /\ Len(c.l) >= 2 /\ ~AddHalffaceRel(pre, c, post, ln.ret) THEN "C11:add_halfface"
+              ELSE IF c.op = "add_cell" /\ inC /\ tet /\ ~TetAddCellC11(pre, c, post, ln.ret) THEN "C11:add_cell(tet)"
+              ELSE IF c.op = "add_cell" /\ inC /\ ~tet /\ ~HexAddCellC11(pre, c, post, ln.ret) THEN "C11:add_cell(hex)"
+              ELSE ""
+      m    == IF IsModelOp(c) THEN (IF tet THEN TetApply(pre, c) ELSE HexApply(pre, c)) ELSE pre
+      drift == IsModelOp(c) /\ m.err = "" /\ (Strip(m) # Strip(post) \/ (~IsDelete(c) /\ ln.ret # -2 /\ m.ret # ln.ret))
+      counted == c.op \in {"add_face", "add_halfface", "add_cell"}
+  IN [msg |-> msg, drift |-> IF drift THEN 1 ELSE 0,
+      d |-> [Zero EXCEPT !.acc = IF counted /\ ln.ret >= 0 THEN 1 ELSE 0, !.rej = IF counted /\ ln.ret < 0 THEN 1 ELSE 0]]
+
 (* ----------------------------- one line -------------------------------- *)
 
 LineCheck(i) ==
   LET ln == Tr[i] IN
   IF Want("C05") /\ ((ln.e = "call" /\ ln.chk) \/ ln.e = "pre") /\ ln.mesh \in {"tet", "hex"} THEN C05Line(ln)
+  ELSE IF Want("C11") /\ ln.e = "call" /\ ln.chk /\ ln.mesh \in {"tet", "hex"} THEN C11Line(ln, Tr[ln.pl].post, ln.post)
   ELSE IF ln.e = "call" /\ ln.chk
   THEN (IF ln.mesh = "tet" /\ Want("C03") THEN C03Line(ln, Tr[ln.pl].post, ln.post)
         ELSE IF ln.mesh = "tet" /\ Want("C15") THEN TetLine(ln, Tr[ln.pl].post, ln.post)
